@@ -161,7 +161,43 @@ def rule_setreg(ck):
     ck.ob("mpt.setreg", "current/getregs(pid)", len(gr) == 1 and expr_of(h, gr[0].args[0]) == ("arg", 1), "", h.loc())
 
 
+def rule_aligned_read(ck):
+    """a read must not touch bytes of another page than the requested ones"""
+    prog = ck.prog
+    ck.rule("mpt.aligned_read", "read_memory_by_pid fetches machine words with PTRACE_PEEKDATA at word-aligned addresses only (an aligned word never crosses a page boundary): the pointer given to ptrace::read is initialised from addr - addr % word (or addr & !(word-1)) and advances by whole words, and the bytes before `addr` in the first word are skipped — an unaligned word read past the end of the requested range fails with EIO when the range ends at the end of a mapping")
+    f = ck.anchor("debugger::read_memory_by_pid")
+    reads = [c for c in f.calls() if c.name == "nix::sys::ptrace::read"]
+    if not ck.ob("mpt.aligned_read", "read_memory_by_pid/one-peek-site", len(reads) == 1, f"{len(reads)} ptrace::read sites", f.loc()):
+        return
+    c = reads[0]
+    e = expr_of(f, c.args[1], depth=14)
+    # the pointer local: initial definition and loop increments
+    while e[0] == "cast":
+        e = e[2]
+    defs = e[1] if e[0] == "multi" else [e]
+    inits, steps = [], []
+    for d in defs:
+        t = expr_str(d, 12)
+        if "offset(" in t or "add(" in t or ".wrapping_add(" in t:
+            steps.append(t)
+        else:
+            inits.append((d, t))
+    aligned = False
+    for d, t in inits:
+        flat = t.replace(" ", "")
+        if ("Rem(arg2" in flat and "Sub" in flat) or ("BitAnd(arg2" in flat) or ("BitAnd(" in flat and "arg2" in flat and "Not" in flat):
+            aligned = True
+    ck.ob("mpt.aligned_read", "read_memory_by_pid/first-word-aligned-down", aligned, f"pointer starts at {[t[:90] for _, t in inits]}", f.loc(c.bb), what="reading the last bytes of a mapping fails: the word read at the unaligned address reaches into the next (unmapped) page")
+    whole = bool(steps) and all(re.search(r"offset\([^,]*, 1\)|add\([^,]*, 1\)", t.replace(" ", "")) or ", 1)" in t for t in steps)
+    ck.ob("mpt.aligned_read", "read_memory_by_pid/advances-by-whole-words", whole, f"{[t[:60] for t in steps]}", f.loc(c.bb))
+    # the leading bytes of the first word are dropped: an Index<RangeFrom> / skip by the same remainder
+    skips = [x for x in f.calls() if re.search(r"Index<I> for \[T; N\]>::index$|Iterator::skip$|slice.*::get$", x.name)]
+    ok = any("Rem(" in expr_str(expr_of(f, x.args[1], depth=10), 10) for x in skips)
+    ck.ob("mpt.aligned_read", "read_memory_by_pid/leading-bytes-skipped", ok or not aligned, "", f.loc())
+
+
 def run(ck):
+    rule_aligned_read(ck)
     regs.rule_siblings(ck)
     rule_write_bytes(ck)
     rule_disasm(ck)
